@@ -97,3 +97,23 @@ func Verif17DeliverMissingPieces(d *Dispatcher, numPieces int, missing []int) {
 	}
 	d.removePeer(p)
 }
+
+// Verif17ServePiece lets a remote peer request piece 0 of a completed torrent
+// and close the payload reader (the torrent is actively seeding).
+func Verif17ServePiece(d *Dispatcher) {
+	var pid core.PeerID
+	pid[0] = 0x52
+	msgs := &verif17Capture{}
+	p, err := d.addPeer(pid, false, bitset.New(0), msgs)
+	verif.Assert("add-peer", err == nil)
+	d.handlePieceRequest(p, &p2p.PieceRequestMessage{Index: 0, Offset: 0, Length: 1})
+	verif.Assert("piece-served", msgs.last != nil && msgs.last.Payload != nil)
+	verif.Assert("reader-closed", msgs.last.Payload.Close() == nil)
+	d.removePeer(p)
+}
+
+type verif17Capture struct{ last *conn.Message }
+
+func (m *verif17Capture) Send(msg *conn.Message) error   { m.last = msg; return nil }
+func (m *verif17Capture) Receiver() <-chan *conn.Message { return nil }
+func (m *verif17Capture) Close()                         {}
